@@ -329,7 +329,55 @@ pub struct PlantedCase {
     pub or_cost: i32,
 }
 
-fn strategy_planted(_t: Tier) -> BoxedStrategy<PlantedCase> {
+/// the textbook multi-output situation: one small cube s (4..n literals) shared by 3..4 outputs, each
+/// output also containing one or two single-literal cubes that negate a literal of s — so that in
+/// every single output s could be expanded to a (different) prime, and only the un-expanded s is shared
+fn strategy_planted_shared(_t: Tier) -> BoxedStrategy<PlantedCase> {
+    (prop_oneof![Just(Kind::Sop), Just(Kind::Sopes)], 5usize..=6, 3usize..=4, any::<u32>(), any::<u32>(), arb_costs())
+        .prop_flat_map(|(kind, n, nout, pol, drop, (a, x, o))| {
+            let vm = (1u32 << n) - 1;
+            // support of s: all variables, or all but one
+            let sup = if drop % 3 == 0 { vm & !(1 << (drop as usize / 3 % n)) } else { vm };
+            let s_cube = (pol & sup, !pol & sup);
+            let lits: Vec<usize> = (0..n).filter(|v| (sup >> v) & 1 != 0).collect();
+            // the negated literals of all outputs come from a small subset T of s's literals (3 or 4 of
+            // them), mostly two per output: then the primes of the single outputs overlap pairwise and
+            // s is the intersection of three of them but of no two
+            let tsize = 3 + (drop as usize / 7) % 2;
+            let start = (drop as usize / 16) % lits.len();
+            let tset: Vec<usize> = (0..tsize).map(|k| (start + k) % lits.len()).collect();
+            proptest::collection::vec(prop_oneof![1 => proptest::collection::vec(0usize..tsize, 1..=1), 4 => proptest::collection::vec(0usize..tsize, 2..=2)], nout).prop_map(move |picks| {
+                let picks: Vec<Vec<usize>> = picks.into_iter().map(|pk| pk.into_iter().map(|k| tset[k]).collect()).collect();
+                let mut pool = vec![s_cube];
+                let mut uses = Vec::new();
+                for pk in picks {
+                    let mut u = vec![0usize];
+                    for li in pk {
+                        let v = lits[li];
+                        // the negation of s's literal on v, as a single-literal cube
+                        let q = if (s_cube.0 >> v) & 1 != 0 { (0u32, 1u32 << v) } else { (1u32 << v, 0u32) };
+                        let idx = match pool.iter().position(|c| *c == q) {
+                            Some(i) => i,
+                            None => {
+                                pool.push(q);
+                                pool.len() - 1
+                            }
+                        };
+                        u.push(idx);
+                    }
+                    uses.push(u);
+                }
+                PlantedCase { kind, n, pool, uses, and_cost: a, xor_cost: x, or_cost: o }
+            })
+        })
+        .boxed()
+}
+
+fn strategy_planted(t: Tier) -> BoxedStrategy<PlantedCase> {
+    prop_oneof![1 => strategy_planted_random(t), 1 => strategy_planted_shared(t)].boxed()
+}
+
+fn strategy_planted_random(_t: Tier) -> BoxedStrategy<PlantedCase> {
     (prop_oneof![Just(Kind::Sop), Just(Kind::Sopes)], prop_oneof![3 => Just(4usize), 5 => Just(5usize), 1 => Just(6usize)], 2usize..=4, prop_oneof![1 => Just(2usize), 3 => Just(3usize), 2 => Just(4usize)], arb_costs())
         .prop_flat_map(|(kind, n, npool, nout, (a, x, o))| {
             let vm = (1u32 << n) - 1;
@@ -644,9 +692,9 @@ pub fn def() -> PropDef {
             run,
         }), Box::new(Sub {
             name: "planted",
-            rule: "planted covers (SOP and SOPES): 2..4 outputs over n in 4..=6 variables are built as ORs of 1..3 cubes drawn from a common pool of 2..4 cubes (so that cubes are shared, also by three outputs); the returned forms must be valid and must not cost more than the planted cover itself (shared cubes paid once) — a sound upper bound of the optimum at sizes the exact DP cannot reach. Non-trivial = some output needs >= 2 terms.",
+            rule: "planted covers (SOP and SOPES): 2..4 outputs over n in 4..=6 variables are built as ORs of 1..3 cubes drawn from a common pool of 2..4 cubes (so that cubes are shared, also by three outputs); the returned forms must be valid and must not cost more than the planted cover itself (shared cubes paid once) — a sound upper bound of the optimum at sizes the exact DP cannot reach. Every other case is the textbook sharing situation: a cube of 4..n literals shared by 3..4 outputs of 5..6 variables, each output also containing single-literal cubes that negate one of its literals (in each output alone the shared cube could be expanded to a different prime). Non-trivial = some output needs >= 2 terms.",
             strategy: strategy_planted,
-            cases: (500, 20_000),
+            cases: (800, 20_000),
             exhaustive: None,
             exhaustive_note: "",
             run: run_planted,
